@@ -437,6 +437,9 @@ class ActionPrebuilder(xtuml.tools.Walker):
     
     def find_symbol(self, node, name):
         # TODO: introduce a new keyword SENDER, and SenderAccessNode?
+        if name.lower() == 'self':
+            name = 'self'
+            
         v_var = self.symtab.find_symbol(name)
         if not v_var and name.lower() == 'sender':
             v_trn = self.v_trn(node, 'sender')
